@@ -9,7 +9,7 @@ import (
 	sdk "github.com/cosmos/cosmos-sdk/types"
 	abci "github.com/tendermint/tendermint/abci/types"
 
-	"github.com/ovrclk/akash/events"
+	"verifsim/evparse"
 	"github.com/ovrclk/akash/sdkutil"
 	atypes "github.com/ovrclk/akash/x/audit/types"
 	dtypes "github.com/ovrclk/akash/x/deployment/types"
@@ -175,7 +175,7 @@ func (cs *checkerSet) c16Tx(c *TxCtx) *core.Violation {
 			continue
 		}
 		r.Count("probe:akash-events")
-		typed, ok := events.VerifProcessEvent(ev)
+		typed, ok := evparse.Process(ev)
 		if !ok {
 			return r.Flag("C16/event-not-decodable", "%s emitted %s which the provider's event parser does not decode", c.Op.Kind, showEvent(ev))
 		}
